@@ -24,6 +24,9 @@ Three sections, all driving the real `emit_batcher` code:
 
 #[path = "../shared/chanvt.rs"]
 mod chanvt;
+#[cfg(not(miri))]
+#[path = "../shared/chan_sampler.rs"]
+mod chan_sampler;
 
 use std::{
     collections::{BTreeMap, HashMap, HashSet},
@@ -2650,6 +2653,13 @@ fn main() {
         if want("join") {
             let args2 = args.clone();
             bounded_section(&mut r, "join", sec_limit, move |r| threads::termination(r, &args2));
+        }
+        if want("sampler") {
+            let args2 = args.clone();
+            bounded_section(&mut r, "sampler", sec_limit, move |r| {
+                let n_s = args2.n(24, 600);
+                par_cases(r, &args2, n_s, |i, r| chan_sampler::sampler_case(r, "C08", seed, i));
+            });
         }
         threads::overstay_collect(&mut r, overstay);
         emit_batcher::verif::set_delay_divisor(1);
